@@ -11,7 +11,7 @@ static const char* OPNAME[] = {"leaf", "&&", "||", "!", "imply", "xor", "==", "!
 static const Op BIN[] = {AND_, OR_, IMPLY_, XOR_, EQ_, NEQ_};
 static const Op UN[] = {NOT_, FORALL_, EXISTS_};
 struct Leaf { const char* text; bool clock; };
-static const Leaf LEAVES[] = {{"i < 1", false}, {"x < 5", true}, {"x - y < 3", true}, {"b", false}, {"x >= 2", true}, {"true", false}};
+static const Leaf LEAVES[] = {{"i < 1", false}, {"x < 5", true}, {"2 <= x - y", true}, {"x - y < 3", true}, {"b", false}, {"x >= 2", true}, {"true", false}, {"3 > x", true}, {"i + 1 < y - x", true}};
 static int NLEAF = 3;
 
 struct F { Op op; int leaf; const F* a; const F* b; };
@@ -113,14 +113,14 @@ static void run(int depth, bool both_deep, int nleaf)
     vf_reach("end");
 }
 
-extern "C" void harness_convex_d2()  /* vf: tier=quick bounds=formula_depth<=2:root_over_(depth<=1_subformula,leaf)_either_order_or_unary_root;3_leaves(int_pred,clock_bound,clock_diff_bound);9_connectives;guard_and_invariant */
+extern "C" void harness_convex_d2()  /* vf: tier=quick bounds=formula_depth<=2:root_over_(depth<=1_subformula,leaf)_either_order_or_unary_root;3_leaves(int_pred,clock_bound,clock_diff_bound_written_with_the_bound_on_the_left);9_connectives;guard_and_invariant */
 {
     run(2, false, 3);
 }
 
-extern "C" void harness_convex_d2_wide()  /* vf: tier=thorough bounds=formula_depth<=2:root_over_(depth<=1_subformula,leaf)_either_order_or_unary_root;6_leaves(int_pred,clock_bound,clock_diff_bound,bool,lower_clock_bound,true);9_connectives;guard_and_invariant time_limit=3300 */
+extern "C" void harness_convex_d2_wide()  /* vf: tier=thorough bounds=formula_depth<=2:root_over_(depth<=1_subformula,leaf)_either_order_or_unary_root;9_leaves(int_pred,clock_bound,clock_diff_bound_with_the_bound_on_either_side,bool,lower_clock_bound,true);9_connectives;guard_and_invariant time_limit=3300 */
 {
-    run(2, false, 6);
+    run(2, false, 9);
 }
 
 extern "C" void harness_convex_d2_full()  /* vf: tier=thorough bounds=all_formula_trees_of_depth<=2;3_leaves;9_connectives;guard_and_invariant time_limit=3300 */
